@@ -100,7 +100,7 @@ Theorem C01_sim_sample_mosaic :
                forall p, a <= p <= e -> label_at g c p = lab h c p) ->
   forall h0 hdraws evs,
   chroms <> [] -> (length chroms <= length hdraws)%nat -> evs_ok chroms 0 (-1) evs ->
-  exists out, sim_sample gs chroms ends p_pop ha hb prev h0 hdraws evs = Ok out /\ tiles chroms out /    Forall (good lab out) (plan chroms ends h0 hdraws evs).
+  exists out, sim_sample gs chroms ends p_pop ha hb prev h0 hdraws evs = Ok out /\ tiles chroms out /\ Forall (good lab out) (plan chroms ends h0 hdraws evs).
 Proof. exact sim_sample_mosaic. Qed.
 Print Assumptions C01_sim_sample_mosaic.
 
